@@ -1,5 +1,6 @@
 import TV.Proofs.WorkQueueSafety
 import TV.Proofs.WorkQueueLive
+import TV.Proofs.MonitorWQ
 /-!
 # C19 — WorkQueue Stop and Break never crash, lose or resurrect work
 
@@ -42,5 +43,11 @@ theorem C19_shutdown_no_deadlock :
 example : ∃ s, runActs (init 1 1) [.enqueue 1 0 false, .recv 0, .take, .stop, .ctxExit, .closeChan, .finish 0 false,
     .tokSendDone, .awaitTok, .workerExit, .allDone, .monExit] = some s ∧ s.disp = .exited ∧ s.panicked = false ∧ s.started = [0] := by
   refine ⟨_, rfl, ?_⟩; decide
+
+/-! ### the model passes the monitor the driver applies to the implementation: whatever starts after Stop or Break
+    was submitted before it (`s0.nextId` = ordinals issued when Stop/Break was called, as the driver records it) -/
+theorem C19_model_passes_monitor (W L : Nat) (s0 s1 s : St) (a : Act) (h0 : Reach W L s0) (ha : a = .stop ∨ a = .break_)
+    (h1 : step? s0 a = some s1) (hsteps : MonSound.Steps s1 s) :
+    (Driver.WQ.obsOf s).started.all (· < s0.nextId) = true := MonSound.afterStop_at_stop_sound h0 ha h1 hsteps
 
 end TV.C19
